@@ -29,6 +29,14 @@ def setup_env():
     os.environ.setdefault("OMP_NUM_THREADS", "1")
     os.environ.setdefault("MKL_NUM_THREADS", "1")
     sys.dont_write_bytecode = True
+    # the library logs tracebacks for fallbacks it handles itself: keep check output readable
+    import logging
+    import warnings
+
+    logging.getLogger("trimesh").setLevel(logging.CRITICAL + 1)
+    logging.getLogger("trimesh").addHandler(logging.NullHandler())
+    logging.lastResort = None
+    warnings.filterwarnings("ignore")
 
 
 def seed_everything(seed, index=0):
@@ -220,6 +228,8 @@ class Run:
                 if line.startswith("REPLAY-KEY ")
             )
             outs.append((p.returncode, keys))
+            if p.returncode not in (0, 1) or "Traceback" in p.stderr:
+                print("replay stderr tail:", p.stderr[-600:], flush=True)
         if outs[0] != outs[1]:
             return "nondeterministic", outs
         if key not in outs[0][1]:
